@@ -218,7 +218,9 @@ pub fn cut_payload(rng: &mut Rng, payload: &[u8], pair_starts: &[usize]) -> Vec<
     let mut cuts: Vec<usize> = vec![];
     match rng.below(7) {
         0 => {}                                                                     // one record (if it fits)
-        1 => { let k = 1 + rng.usize_below(4); let mut p = k; while p < payload.len() { cuts.push(p); p += k; } }  // tiny records: pairs over 3+ records
+        // tiny records: pairs over 3+ records.  For payloads beyond 16 KiB the tiny records cover the first and the last 2 KiB only
+        // (tens of thousands of 1..4-byte records add nothing but make the list-based model quadratic)
+        1 => { let k = 1 + rng.usize_below(4); let mut p = k; while p < payload.len() { if payload.len() <= 16_384 || p < 2048 || p + 2048 > payload.len() { cuts.push(p); } p += k; } }
         2 => for &s in pair_starts { for d in 0..9 { if rng.chance(1, 3) && s + d < payload.len() && s + d > 0 { cuts.push(s + d); } } },   // inside length prefixes
         3 => for &s in pair_starts { if s > 0 { cuts.push(s); } },               // exactly at pair boundaries
         _ => { let n = rng.usize_below(6); for _ in 0..n { cuts.push(1 + rng.usize_below(payload.len())); } }
